@@ -604,6 +604,11 @@ async fn api_state(node: &super::apifam::ApiNode, st: &State, queries: &[Q]) -> 
                     let e = item.map_err(|e| format!("{e:#}"))?;
                     v.push((e.author().to_bytes(), e.key().to_vec(), e.timestamp(), *e.content_hash().as_bytes(), e.content_len()));
                     if v.len() == 3 {
+                        // meanwhile another document of the node is opened and closed by its
+                        // last handle
+                        if let Ok(other) = api.import_namespace(iroh_docs::Capability::Write(crate::universe::ns_secret(1))).await {
+                            let _ = other.close().await;
+                        }
                         tokio::time::sleep(std::time::Duration::from_millis(slow_reader_pause_ms())).await;
                     }
                 }
